@@ -162,4 +162,8 @@ def run(chk):
     from . import c15
     cvar = c15.rule_ctx(chk)
     if cvar:
-        c15.rule_inside(chk, cvar)
+        gv, resumers = c15.rule_inside(chk, cvar)
+        if resumers and resumers[0] is not c15._wrapper(chk)[1]:
+            # close() / throw() arriving from a driver must be forwarded into the generator inside its own context,
+            # or the generator's clean-up runs in whatever action the closing task happens to be in
+            c15.rule_transparent(chk, cvar, gv, resumers, only_close_forwarding=True)
